@@ -42,12 +42,20 @@ ASSUMPTIONS = [
     "the harness's cell classification (element == 0, == 1, neither) of np.array(data) is what numpy's `(data == 0) | (data == 1)` computes",
     "generated real samples are dyadic (k/8) so signal+noise is exact in float64; integer-typed samples/noise are generated so that "
     "signal+noise stays inside the dtype (numpy wraps `uint8(200)+uint8(100)` to 44 before any comparison: reported, not generated)",
+    "int64 samples are compared with INTEGER thresholds only (numpy compares int64 with a float64 threshold after a cast to float64, so "
+    "`electrical_signal(np.array([2**53+1])) > 2.0**53` is 0: reported, not generated)",
     "the driver evaluates the same Lean definitions the theorems are about",
 ]
 BUDGET = {"quick": 120, "thorough": 900}
 EXHAUSTIVE = {"quick": True, "thorough": True}
 
 SCALE = 8
+# documented positional order of the anchored callables at /repo HEAD 8caea4c (a literal: never read from the code under test)
+SIGNATURES = {
+    "binary_sequence": ["data"],
+    "electrical_signal": ["signal", "noise", "dtype"],
+    "str2array": ["string", "dtype"],
+}
 BIT_FORMS = ["str", "list", "tuple", "ndarray", "ndarray_bool", "ndarray_float", "ndarray_u8", "list_bool", "list_float",
              "list_cplx", "str_sep"]
 FIVE = ["str", "list", "tuple", "ndarray", "ndarray_bool"]
@@ -301,6 +309,39 @@ OVERFLOW_TEXTS = ["9223372036854775808", "-9223372036854775809", "99999999999999
                   "1,-99999999999999999999", "9223372036854775808;1", " 18446744073709551616 "]
 
 
+# every kind of white space Python's `\\s` knows, around and inside bit patterns: only the blank (and the comma) separate bits;
+# any other white-space character left in a 0/1 pattern is refused by HEAD (numpy cannot read it as a number)
+WS_CHARS = ["\t", "\n", "\r\n", "\r", "\f", "\v", "\xa0", "\x1c", "\x85", "\u2003", "\u2028", "\u3000"]
+
+
+def _ws_texts(rng, per):
+    out = []
+    for ws in WS_CHARS:
+        for _ in range(per):
+            bits = _rand_bits(rng, rng.randrange(1, 9))
+            where = rng.choice(["lead", "trail", "inner", "inner", "both", "with-blanks"])
+            if where == "lead":
+                t = ws + bits
+            elif where == "trail":
+                t = bits + ws
+            elif where == "both":
+                t = ws + bits + ws
+            elif where == "inner":
+                k = rng.randrange(1, len(bits)) if len(bits) > 1 else 1
+                t = bits[:k] + ws + bits[k:]
+            else:
+                t = " ".join(bits) + ws + " " + rng.choice(["0", "1", ""])
+            out.append(t)
+    return out
+
+
+def _bool_class_digits(text):
+    """for a string made only of 0, 1, comma and white space (one row): its digit characters, the only possible elements"""
+    if text and all(ch in "01," or ch.isspace() or ch in "\x1c\x1d\x1e\x1f\x85" for ch in text):
+        return "".join(ch for ch in text if ch in "01")
+    return None
+
+
 def _slice_vals(n):
     return [None] + list(range(-n - 2, n + 3))
 
@@ -400,6 +441,12 @@ def gen_cases(rng, tier):
         for op in (("add",) if spec["form"].startswith("ndarray") else ("add", "radd")):
             cases.append({"kind": "prog", "init": _rand_bits(rng, rng.randrange(0, 7)),
                           "steps": [{"op": op, "operand": spec, "obits": None, "expect": "err", "keep": False}]})
+    for t in _ws_texts(rng, 2 if quick else 20):
+        cases.append({"kind": "mk", "data": {"form": "text", "text": t}, "expect": "any"})
+    for t in _ws_texts(rng, 1 if quick else 10):
+        for op in ("add", "radd"):
+            cases.append({"kind": "prog", "init": _rand_bits(rng, rng.randrange(0, 6)),
+                          "steps": [{"op": op, "operand": {"form": "text", "text": t}, "obits": None, "expect": "any", "keep": False}]})
     for t in TEXTS:
         cases.append({"kind": "mk", "data": {"form": "text", "text": t}, "expect": "any"})
     for t in OVERFLOW_TEXTS:
@@ -550,6 +597,56 @@ def gen_cases(rng, tier):
                 cases.append({"kind": "cmp", "op": op, "sig": [[10, 0], [50, 0], [90, 0]], "noise": None, "sscale": 1, "scale": 1,
                               "sig_dtype": dt, "thr": {"form": form, "dtype": dt, "noise": None,
                                                        "vals": [[50, 0]] * (3 if form == "ndarray" else 1)}})
+    # amplitude regimes over the whole float range: real samples k * 2^e (k small, so every sum is exact) and decimal
+    # magnitudes 1e-300 ... 1e300, threshold at the same scale and at a different scale; squares of such values under- or
+    # overflow, magnitudes do not.  Values travel to the model as exact integers (common power-of-two denominator).
+    fforms = ["scalar", "npscalar", "list1", "list", "tuple", "ndarray", "esig"]
+    decades = [-300, -200, -170, -154, -100, -30, 0, 30, 100, 154, 170, 200, 300]
+    for _ in range(150 if quick else 3000):
+        n = rng.choice([1, 2, 3, 4, 6])
+        mode = rng.choice(["pow2", "pow2", "decimal", "mixed-scales", "with-zero"])
+        if mode in ("pow2", "with-zero"):
+            e = rng.choice([-1060, -1000, -600, -520, -500, -300, -60, 0, 60, 300, 500, 511, 520, 600, 1000, 1010])
+            sig = [float(rng.randint(0, 24)) * 2.0 ** e for _ in range(n)]
+            noise = [float(rng.randint(0, 8)) * 2.0 ** e for _ in range(n)] if rng.random() < 0.4 else None
+            tb = lambda: float(rng.randint(0, 30)) * 2.0 ** e      # noqa: E731
+            if mode == "with-zero":
+                sig[rng.randrange(n)] = 0.0
+                tb = lambda: 0.0                                   # noqa: E731
+        elif mode == "decimal":
+            d = rng.choice(decades)
+            sig = [float(f"{rng.randint(1, 99)}e{d - 1}") for _ in range(n)]
+            noise = None
+            tb = lambda: float(f"{rng.randint(1, 99)}e{d - 1}")     # noqa: E731
+        else:
+            sig = [float(f"{rng.randint(1, 9)}e{rng.choice(decades)}") for _ in range(n)]
+            noise = None
+            tb = lambda: float(f"{rng.randint(1, 9)}e{rng.choice(decades)}")   # noqa: E731
+        form = rng.choice(fforms)
+        m = 1 if form in ("scalar", "npscalar", "list1") else n
+        tv = [tb() for _ in range(m)]
+        if rng.random() < 0.3:
+            tv[0] = sig[0] + (noise[0] if noise else 0.0)             # an exact tie
+        for op in ("gt", "lt"):
+            cases.append({"kind": "cmpf", "op": op, "sig": sig, "noise": noise, "thr": {"form": form, "vals": tv}})
+    # the documented shape of the failure of a squared comparison
+    for sig, tv in [([0.0, 1e-200, 3e-170, 1.0], [0.0]), ([1e200, 2e200, 3e200], [1.5e200]), ([1e-300, 2e-300, 3e-300], [2e-300]),
+                    ([5e-324, 0.0, 1e-310], [0.0]), ([1.7e308, 1e308], [1.5e308])]:
+        for op in ("gt", "lt"):
+            for form in ("scalar", "list1"):
+                cases.append({"kind": "cmpf", "op": op, "sig": sig, "noise": None, "thr": {"form": form, "vals": tv}})
+    # large int64 samples (2^53 ... 2^62) against INTEGER thresholds one unit apart: a cast to float would tie them.
+    # (int64 samples against a FLOAT threshold are compared by numpy after a cast to float64: reported, not generated)
+    for _ in range(40 if quick else 800):
+        n = rng.choice([1, 2, 3, 5])
+        b = rng.choice([2 ** 53, 2 ** 53 + 2 ** 20, 2 ** 56, 2 ** 60, 2 ** 62, 2 ** 62 + 2 ** 61 - 8])
+        sig = [b + rng.randint(-3, 3) for _ in range(n)]
+        noise = [rng.randint(0, 3) for _ in range(n)] if rng.random() < 0.3 else None
+        form = rng.choice(["scalar", "npscalar", "list1", "list", "ndarray", "esig"])
+        m = 1 if form in ("scalar", "npscalar", "list1") else n
+        tv = [b + rng.randint(-3, 4) for _ in range(m)]
+        for op in ("gt", "lt"):
+            cases.append({"kind": "cmpf", "op": op, "sig": sig, "noise": noise, "int64": True, "thr": {"form": form, "vals": tv}})
     # the plain instance of the documented use: a ramp against x.5
     for n in [4, 8]:
         for op in ("gt", "lt"):
@@ -604,6 +701,34 @@ def _run_mk(case):
         res = _err(e)
     after = obj.tobytes() if isinstance(obj, np.ndarray) else repr(obj)
     res["input_unchanged"] = before == after
+    # keyword twin (documented parameter names, SIGNATURES): same outcome as the positional call
+    try:
+        with time_limit(20):
+            with warnings.catch_warnings():
+                warnings.simplefilter("ignore")
+                rk = binary_sequence(**{SIGNATURES["binary_sequence"][0]: _obj(case["data"])})
+        kw = _seq_out(rk)
+    except Timeout:
+        raise
+    except Exception as e:  # noqa
+        kw = _err(e)
+    res["kw"] = {k: kw.get(k) for k in ("status", "bits", "err", "exc", "dtype", "ndim")}
+    if isinstance(obj, str):
+        from opticomlib.utils import str2array
+
+        def s2a(*a, **k):
+            try:
+                with time_limit(20):
+                    with warnings.catch_warnings():
+                        warnings.simplefilter("ignore")
+                        r = str2array(*a, **k)
+                return ["ok", str(r.dtype), list(r.shape), repr(r.tolist())[:400]]
+            except Timeout:
+                raise
+            except Exception as e:  # noqa
+                return ["err", type(e).__name__]
+        names = SIGNATURES["str2array"]
+        res["s2a"] = [[s2a(obj, dt), s2a(**{names[0]: obj, names[1]: dt})] for dt in (None, bool, int)]
     return res
 
 
@@ -766,8 +891,54 @@ def _run_cmp(case):
     return res
 
 
+def _run_cmpf(case):
+    """threshold comparison on raw float (or int64) values; also the keyword twin of electrical_signal(signal, noise)"""
+    import numpy as np
+    from opticomlib.typing import electrical_signal
+    i64 = case.get("int64", False)
+    mk = (lambda v: np.array(v, dtype=np.int64)) if i64 else (lambda v: np.array(v, dtype=float))
+    sig = mk(case["sig"])
+    noi = None if case["noise"] is None else mk(case["noise"])
+    x = electrical_signal(sig) if noi is None else electrical_signal(sig, noi)
+    names = SIGNATURES["electrical_signal"]
+    xk = electrical_signal(**({names[0]: sig} if noi is None else {names[0]: sig, names[1]: noi}))
+    same = x.signal.tobytes() == xk.signal.tobytes() and str(x.signal.dtype) == str(xk.signal.dtype) and \
+        ((x.noise is None) == (xk.noise is None)) and (x.noise is None or x.noise.tobytes() == xk.noise.tobytes())
+    tv, form = case["thr"]["vals"], case["thr"]["form"]
+    t = {"scalar": lambda: tv[0], "npscalar": lambda: (np.int64 if i64 else np.float64)(tv[0]), "list1": lambda: [tv[0]],
+         "list": lambda: list(tv), "tuple": lambda: tuple(tv), "ndarray": lambda: mk(tv), "esig": lambda: electrical_signal(mk(tv))}[form]()
+    s0 = x.signal.tobytes()
+    try:
+        with time_limit(20):
+            with warnings.catch_warnings():
+                warnings.simplefilter("ignore")
+                r = (x > t) if case["op"] == "gt" else (x < t)
+        res = _seq_out(r)
+    except Timeout:
+        raise
+    except Exception as e:  # noqa
+        res = _err(e)
+    res["self_unchanged"] = x.signal.tobytes() == s0
+    res["dtype_sig"] = str(x.signal.dtype)
+    res["kw_same"] = bool(same)
+    return res
+
+
+def _exact(case):
+    """exact values of a cmpf case: Fractions of signal+noise and of the (broadcast) threshold, and the common denominator"""
+    sig = [Fraction(v) for v in case["sig"]]
+    noi = [Fraction(v) for v in case["noise"]] if case["noise"] is not None else None
+    thr = [Fraction(v) for v in case["thr"]["vals"]]
+    den = 1
+    for q in sig + (noi or []) + thr:
+        den = max(den, q.denominator)          # all denominators are powers of two
+    return sig, noi, thr, den
+
+
 def run_impl(case):
     try:
+        if case["kind"] == "cmpf":
+            return _run_cmpf(case)
         if case["kind"] == "mk":
             return _run_mk(case)
         if case["kind"] == "prog":
@@ -817,6 +988,11 @@ def model_requests(case, res):
                 ix = dict(st["index"], t="int") if st["index"]["t"] == "npint" else st["index"]
                 reqs.append(f"binseq.get {a} {_wire_index(ix)}")
         return reqs
+    if kind == "cmpf":
+        sig, noi, thr, den = _exact(case)
+        w = lambda qs: " ".join([str(len(qs))] + [f"{int(q * den)} 0" for q in qs])     # noqa: E731
+        n = "none" if noi is None else "some " + w(noi)
+        return [f"binseq.cmp {case['op']} {w(sig)} {n} thr {w(thr)} none"]
     if kind == "cmp":
         thr = case["thr"]
         if thr["form"] in ("none", "dict", "text"):
@@ -903,6 +1079,26 @@ def oracle(case, res):
         return v
     if res["status"] == "timeout":
         return [("C15:timeout:" + kind, f"{kind} did not return within the time limit: {str(case)[:200]}")]
+    if kind == "cmpf":
+        sig, noi, thr, _den = _exact(case)
+        n = len(sig)
+        what = f"electrical_signal({case['sig'][:6]}{'' if noi is None else ', noise=' + str(case['noise'][:6])}" \
+               f"{' int64' if case.get('int64') else ''}) {'>' if case['op'] == 'gt' else '<'} {case['thr']['form']} {case['thr']['vals'][:6]}"
+        if not res.get("self_unchanged", True):
+            v.append(("C15:cmp-mutates", f"{what}: the signal object changed"))
+        if res.get("kw_same") is False:
+            v.append(("C15:positional:electrical_signal", f"{what}: electrical_signal(signal, noise) and electrical_signal(signal=, noise=) differ"))
+        if res["status"] != "ok":
+            return v + [("C15:cmp-fails", f"{what}: {res.get('exc')}: {res.get('detail')}")]
+        if _closure(res, "cmp", v) and res["len"] != n:
+            v.append(("C15:cmp-length", f"{what}: result has {res['len']} elements, the signal {n}"))
+        tot = [a + (noi[i] if noi else 0) for i, a in enumerate(sig)]
+        tv = thr * n if len(thr) == 1 else thr
+        if all(q >= 0 for q in sig + (noi or []) + tot + tv):
+            want = "".join("1" if ((a > b) if case["op"] == "gt" else (a < b)) else "0" for a, b in zip(tot, tv))
+            if res["bits"] != want:
+                v.append(("C15:cmp-value", f"{what}: result {res['bits']!r}, element-wise comparison of signal+noise with the threshold gives {want!r}"))
+        return v
     if kind == "mk":
         d = case["data"]
         what = f"binary_sequence({d.get('form')} {str(d.get('text', d.get('vals')))[:60]!r})"
@@ -912,6 +1108,10 @@ def oracle(case, res):
                 v.append(("C15:mk-accepts-invalid", f"{what} was accepted (data {res['bits'][:40]!r}); only 1-D data of 0/1 may be"))
             if case["expect"] == "ok" and res["bits"] != d["bits"]:
                 v.append(("C15:mk-bits", f"{what} stored {res['bits'][:60]!r}, required {d['bits'][:60]!r}"))
+            dg = _bool_class_digits(d.get("text")) if "text" in d else None
+            if dg is not None and res["bits"] != dg:
+                v.append(("C15:mk-bits:whitespace", f"{what} stored {res['bits'][:60]!r}: the only 0/1 elements of that string are {dg[:60]!r} "
+                                                    f"(white space is not a bit)"))
             if res.get("shares"):
                 v.append(("C15:mk-aliases-input", f"{what}: .data shares memory with the input array"))
         else:
@@ -921,6 +1121,14 @@ def oracle(case, res):
                 v.append(("C15:mk-rejects-valid", f"{what} was refused: {res.get('detail')}"))
         if not res.get("input_unchanged", True):
             v.append(("C15:mk-mutates-input", f"{what} changed its argument"))
+        kw = res.get("kw")
+        if kw is not None and any(kw.get(k) != res.get(k) for k in ("status", "bits", "err", "dtype", "ndim")):
+            v.append(("C15:positional:binary_sequence", f"{what}: positional call gave {res.get('bits', res.get('exc'))!r}, "
+                                                        f"binary_sequence(data=...) gave {kw.get('bits', kw.get('exc'))!r}"))
+        for pos, key in res.get("s2a", []):
+            if pos != key:
+                v.append(("C15:positional:str2array", f"str2array({d.get('text')!r}, dtype): positional {pos} but by keyword (string=, dtype=) {key}"))
+                break
         return v
     if kind == "prog":
         for k, (st, rec) in enumerate(zip(case["steps"], res["steps"])):
@@ -960,6 +1168,10 @@ def oracle(case, res):
                     elif not _err_kind_ok(rec):
                         v.append((f"C15:{op}-error-kind:{rec.get('exc')}", f"{desc}: raised {rec.get('exc')}; ValueError/TypeError required"))
                 else:
+                    dg = _bool_class_digits(st["operand"].get("text")) if "text" in st["operand"] else None
+                    if dg is not None and rec["status"] == "ok" and rec["bits"] != (prev + dg if op == "add" else dg + prev):
+                        v.append((f"C15:{op}-value:whitespace", f"{desc}: result {rec['bits'][:60]!r}; the only 0/1 elements of the operand are "
+                                                                f"{dg[:40]!r} (white space is not a bit)"))
                     if rec["status"] == "err" and not _err_kind_ok(rec):
                         v.append((f"C15:{op}-error-kind:{rec.get('exc')}", f"{desc}: raised {rec.get('exc')}; ValueError/TypeError required"))
             elif op == "inv":
@@ -1056,6 +1268,15 @@ def features(case, res):
                     f.append("slice-step=" + ("none" if c is None else "0" if c == 0 else "+" if c > 0 else "-"))
             f.append(key)
             f.append("step-status=" + rec["status"] + (":" + rec["err"] if rec["status"] == "err" else ""))
+    elif kind == "cmpf":
+        import math
+        f.append("cmpf:thr=" + case["thr"]["form"])
+        mags = [abs(v) for v in case["sig"] if v]
+        if case.get("int64"):
+            f.append("cmpf:int64>=2^53")
+        elif mags:
+            e = math.log10(max(mags))
+            f.append("cmpf:decade=" + ("<-154" if e < -154 else "-154..-30" if e < -30 else "-30..30" if e <= 30 else "30..154" if e <= 154 else ">154"))
     elif kind == "cmp":
         f.append("cmp:thr=" + case["thr"]["form"])
         f.append("cmp:op=" + case["op"])
@@ -1080,6 +1301,8 @@ def nontrivial_key(case, res):
         if not any(rec["status"] == "ok" for rec in res["steps"]):
             return None
         return ("prog", case["init"], str(case["steps"]))
+    if kind == "cmpf":
+        return ("cmpf", case["op"], str(case["sig"]), str(case["noise"]), str(case["thr"]))
     if kind == "cmp":
         return ("cmp", case["op"], str(case["sig"]), str(case["noise"]), str(case["thr"]))
     return None
